@@ -914,8 +914,15 @@ class AccessoryDriver:
             if aid == primary_aid:
                 acc = primary_accessory
             else:
-                acc = self.accessory.accessories.get(aid)
-            char = acc.get_characteristic(aid, iid)
+                acc = getattr(primary_accessory, "accessories", {}).get(aid)
+            char = acc.get_characteristic(aid, iid) if acc is not None else None
+            if not isinstance(char, Characteristic):
+                # Not a characteristic of this accessory: answer for this entry
+                # alone, the other characteristics of the request are still written
+                results[aid][iid] = {
+                    HAP_REPR_STATUS: HAP_SERVER_STATUS.RESOURCE_DOES_NOT_EXIST
+                }
+                continue
 
             set_result = HAP_SERVER_STATUS.INVALID_VALUE_IN_REQUEST
             set_result_value = None
